@@ -294,13 +294,8 @@ def run_shard(shard, rec):
             batches = []
             for k in range(r.randrange(2, 4)):
                 length = r.randrange(1, 6)
-                while True:
-                    calls = gen_calls(r, length, r.choice([None, None] + list(range(length))))
-                    # (what a BatchProxy still holds after a submission that itself failed is not specified: such batches only come last)
-                    if k == 2 or not any(c[0] in SUBMIT_FAILURES for c in calls):
-                        break
-                batches.append((calls, r.random() < 0.4))
-            batches = [b for i, b in enumerate(batches) if i == len(batches) - 1 or not any(c[0] in SUBMIT_FAILURES for c in b[0])]
+                # any batch may fail, at a position or at submission (unexposed / private / missing name): the BatchProxy is cleared all the same
+                batches.append((gen_calls(r, length, r.choice([None, None] + list(range(length)))), r.random() < 0.4))
             n += 1
             check_reuse(fx, Ref, batches, shard["serializer"], rec, n)
         for kind, text in fixture.take_faults():
